@@ -16,7 +16,7 @@
           overwritten, users/cdb unreadable, stat error in qmail-getpw, lookup errors ("E name").
   verdict TLC evaluates Verdict (spec/Users.tla) on every delivery record (spec/UsersRec.tla)
 """
-import sys, os, json, argparse, shutil, struct, threading, itertools, re
+import sys, os, json, argparse, shutil, struct, threading, itertools, re, time
 sys.path.insert(0, os.path.join(os.path.dirname(os.path.abspath(__file__)), "..", "lib"))
 from vlib import *
 import sandbox, sessions
@@ -509,7 +509,7 @@ def cfg_key(cfg, job):
 
 def model_cfg(path, mode, lines, loc, ulen):
     with open(path, "w") as f:
-        f.write("SPECIFICATION Spec\nCONSTANTS\n MaxLines = %d\n MaxLocal = %d\n Mode = \"%s\"\n ULen = %d\n Faults = TRUE\n"
+        f.write("SPECIFICATION Spec\nCONSTANTS\n MaxLines = %d\n MaxLocal = %d\n Mode = \"%s\"\n ULen = %d\n Faults = TRUE\n WcAsWritten = FALSE\n"
                 "INVARIANT Conforms\nINVARIANT SearchIsAssign\nINVARIANT SearchComplete\nINVARIANT CompiledEqualsSource\nINVARIANT NeverRootAtExec\n"
                 % (lines, loc, mode, ulen))
     return path
@@ -545,6 +545,7 @@ def main():
             threads.append(t)
 
     tree = build_tree(ck.scratch, split=3)
+    log("C11: built %.0fs" % (time.time() - ck.t0))
     rn = Runner(ck, tree, thorough)
     if a.replay:
         case = json.load(open(a.replay))["case"]
@@ -556,6 +557,7 @@ def main():
         jobs = gen_jobs(ck.rng, thorough)
         # the damage jobs are long: split their variants over several workers
     results = sessions.pmap(rn.run_job, jobs, workers=workers if rn.ns else 1)
+    log("C11: %d jobs run %.0fs" % (len(jobs), time.time() - ck.t0))
 
     cfgs, recs, owner = [], [], []
     for job, (cfg, rs) in zip(jobs, results):
@@ -570,10 +572,12 @@ def main():
     write_ndjson(recfile, [{k: v for k, v in r.items() if not k.startswith("_")} for r in recs])
     bad, vres = tlc_validate_records("UsersRec", "UsersRec.cfg", recfile, len(recs), chunk=400, env={"CFGS": cfgfile}, heap="8g")
     ck.add_tlc("UsersRec", vres)
+    log("C11: %d records validated %.0fs" % (len(recs), time.time() - ck.t0))
     ck.cov["traces_validated_against_impl"] = len(recs)
 
     for t in threads:
         t.join()
+    log("C11: models done %.0fs" % (time.time() - ck.t0))
     reached = {}
     for name, _ in models:
         if name in mres:
